@@ -1,6 +1,7 @@
 package otto
 
 import (
+	"math"
 	"reflect"
 	"strconv"
 )
@@ -34,6 +35,10 @@ func (o *goSliceObject) setLength(rt *runtime, value Value) {
 	want, err := value.ToInteger()
 	if err != nil {
 		panic(rt.panicConversionError(err))
+	}
+
+	if want < 0 || want > math.MaxUint32 {
+		panic(rt.panicRangeError("Invalid array length"))
 	}
 
 	wantInt := int(want)
